@@ -89,48 +89,73 @@ fn under_flex(ty: &Ty, v: &Value, path: &[u16]) -> bool {
     (0..path.len()).any(|k| matches!(resolve(ty, v, &path[..k]), Some((Ty::FlexVec(..), _))))
 }
 
-/// Where emplacing `v` into `n` bytes fails: path of the first node (in emplacement
-/// order) that does not fit, and whether the emplacer protocol has already written
-/// parts of the target when the failure is detected. None if it fits.
-pub fn fit_failure(ty: &Ty, v: &Value, n: usize) -> Option<(Vec<u16>, bool, bool)> {
-    fn go(ty: &Ty, v: &Value, n: usize, path: &mut Vec<u16>) -> Option<(Vec<u16>, bool, bool)> {
+/// What a failed emplacement over an existing value leaves behind, according to the emplacer protocol
+/// of the pinned tree (container emplacers check before they reset; flex::FromIterator resets the
+/// vector to empty on any failure; generated *Init emplacers write the tag / sized fields and then
+/// descend into the last field without being able to roll back).
+#[derive(Clone, Copy, PartialEq, Debug)]
+pub enum After {
+    /// nothing is written: the target is byte-for-byte what it was
+    Unchanged,
+    /// parts were written, but every part is a valid value (known finding C18|nested-emplacer-failure
+    /// covers the "unchanged" clause only)
+    ValidChanged,
+    /// parts were written and the part that failed is stale memory of another layout (enum variant
+    /// switch): the target may not even be valid (known finding C18|nested-emplacer-failure)
+    MaybeInvalid,
+}
+
+/// Where emplacing `v` into `n` bytes that currently hold `old` fails: path of the first node (in
+/// emplacement order) that does not fit, and the state the target is left in. None if it fits.
+pub fn fit_failure(ty: &Ty, v: &Value, old: &Value, n: usize) -> Option<(Vec<u16>, After)> {
+    // `old` is Some iff the node's region currently holds a valid value of the node's type (no enum
+    // variant switch above it)
+    fn go(ty: &Ty, v: &Value, old: Option<&Value>, n: usize, path: &mut Vec<u16>) -> Option<(Vec<u16>, After)> {
+        let untouched = if old.is_some() { After::Unchanged } else { After::MaybeInvalid };
         if n < model::min_size(ty) {
-            return Some((path.clone(), false, false));
+            return Some((path.clone(), untouched));
         }
         match (ty, v) {
             (Ty::Struct(s), Value::Struct(fs)) if !s.sized => {
                 let n = model::round_down(n, model::align(ty));
                 let (offs, _) = model::field_offsets(&s.fields);
                 let k = s.fields.len() - 1;
+                let child_old = match old {
+                    Some(Value::Struct(ofs)) => Some(&ofs[k]),
+                    _ => None,
+                };
                 path.push(k as u16);
-                let r = go(&s.fields[k], &fs[k], n - offs[k], path);
+                let r = go(&s.fields[k], &fs[k], child_old, n - offs[k], path);
                 path.pop();
-                // the sized fields before the last one have been written by then; the failing part
-                // is below a generated *Init emplacer, which cannot roll back
-                r.map(|(p, w, _)| (p, w || k > 0, true))
+                // the sized fields before the last one have been written by then
+                r.map(|(p, a)| (p, if a == After::Unchanged && k > 0 { After::ValidChanged } else { a }))
             }
             (Ty::Enum(e), Value::Enum(i, fs)) if !e.sized => {
                 let n = model::round_down(n, model::align(ty));
                 let d = model::enum_data_offset(e);
                 let fields = &e.variants[*i].fields;
                 if n - d < model::variant_min_size(fields) {
-                    return Some((path.clone(), false, false));
+                    return Some((path.clone(), untouched));
                 }
                 if let Some(last) = fields.last() {
                     if !last.is_sized() {
                         let (offs, _) = model::field_offsets(fields);
                         let k = fields.len() - 1;
+                        let child_old = match old {
+                            Some(Value::Enum(j, ofs)) if j == i => Some(&ofs[k]),
+                            _ => None,
+                        };
                         path.push(k as u16);
-                        let r = go(last, &fs[k], n - d - offs[k], path);
+                        let r = go(last, &fs[k], child_old, n - d - offs[k], path);
                         path.pop();
                         // the tag (and earlier fields) have been written by then
-                        return r.map(|(p, _, _)| (p, true, true));
+                        return r.map(|(p, a)| (p, if a == After::Unchanged && k > 0 { After::ValidChanged } else { a }));
                     }
                 }
                 None
             }
-            (Ty::FlatVec(..), Value::Vec(xs)) => (xs.len() > model::capacity(ty, n)).then(|| (path.clone(), false, false)),
-            (Ty::FlatString(_), Value::Str(s)) => (s.len() > model::capacity(ty, n)).then(|| (path.clone(), false, false)),
+            (Ty::FlatVec(..), Value::Vec(xs)) => (xs.len() > model::capacity(ty, n)).then(|| (path.clone(), untouched)),
+            (Ty::FlatString(_), Value::Str(s)) => (s.len() > model::capacity(ty, n)).then(|| (path.clone(), untouched)),
             (Ty::FlexVec(t, l), Value::Flex(xs)) => {
                 let a = model::align(ty);
                 let n = model::round_down(n, a);
@@ -138,19 +163,20 @@ pub fn fit_failure(ty: &Ty, v: &Value, n: usize) -> Option<(Vec<u16>, bool, bool
                 let mut pos = 0;
                 for (i, x) in xs.iter().enumerate() {
                     if pos + os > n {
-                        return Some((path.clone(), i > 0, false));
+                        return Some((path.clone(), After::ValidChanged));
                     }
                     path.push(i as u16);
-                    let r = go(t, x, n - pos - os, path);
+                    // the item emplacer works inside the old chain's bytes (stale for the item)
+                    let r = go(t, x, None, n - pos - os, path);
                     path.pop();
-                    if let Some((p, _, u)) = r {
-                        // the item emplacer works inside the old chain's bytes; flex::FromIterator
-                        // cannot know whether it wrote anything and resets the vector (valid, but changed)
-                        return Some((p, true, u));
+                    if let Some((p, _)) = r {
+                        // flex::FromIterator cannot know whether the item emplacer wrote anything and
+                        // resets the vector (valid, but changed)
+                        return Some((p, After::ValidChanged));
                     }
                     let stride = os + model::round_up(model::size_of(t, x), a);
                     if i + 1 < xs.len() && stride as u128 >= l.max() {
-                        return Some((path.clone(), true, false));
+                        return Some((path.clone(), After::ValidChanged));
                     }
                     pos += stride;
                 }
@@ -159,7 +185,7 @@ pub fn fit_failure(ty: &Ty, v: &Value, n: usize) -> Option<(Vec<u16>, bool, bool
             _ => None,
         }
     }
-    go(ty, v, n, &mut vec![])
+    go(ty, v, Some(old), n, &mut vec![])
 }
 
 /// Equality of two values as the element types' `PartialEq` defines it: native floats compare
@@ -277,9 +303,11 @@ fn gen_step(ty: &Ty, dec: &Decoded, bytes: &[u8], t: &mut Tape, cfg: &HistCfg, s
             _ => Fuel::small(),
         };
         let nv2 = gen_value(nty, t, &mut fuel);
-        let route = t.route_exact(3);
-        // iterator-driven emplacers of unknown length cannot be transactional: keep to exact-size routes
-        let fail = fit_failure(nty, &nv2, nd.len);
+        let fail = fit_failure(nty, &nv2, nv, nd.len);
+        // iterator-driven emplacers of unknown length cannot be transactional (known finding
+        // C18|unknown-length-iterator): failing assignments keep to exact-size routes; assignments that
+        // fit also go through iterators with a loose size_hint
+        let route = if fail.is_none() { t.route(3) } else { t.route_exact(3) };
         let expect = match &fail {
             None => {
                 if model::encode(nty, &nv2, nd.len, 0, &mut Canonical).is_err() {
@@ -289,21 +317,21 @@ fn gen_step(ty: &Ty, dec: &Decoded, bytes: &[u8], t: &mut Tape, cfg: &HistCfg, s
                     Expect::Done(nv2.clone())
                 }
             }
-            Some((_, wrote_before, under_init)) => {
-                if *wrote_before && *under_init {
-                    // Known finding C18|nested-emplacer-failure: the part that does not fit is reached after a
-                    // generated struct / enum *Init emplacer has already written the tag / earlier fields; the
-                    // emplacer protocol cannot roll back and the result may even be invalid.
-                    st.exclude("assign fails below a struct/enum *Init after parts were written (known finding C18|nested-emplacer-failure)");
-                    return None;
-                }
-                if *wrote_before {
-                    // FlexVec assignments: earlier items are already written into the old chain's bytes, so the
-                    // old content cannot survive (same known finding), but the result must be a valid value
-                    st.exclude("unchanged-clause of a failing FlexVec assignment (known finding C18|nested-emplacer-failure); validity is still checked");
-                }
-                Expect::AssignFails { unchanged: !*wrote_before }
+            Some((_, After::MaybeInvalid)) => {
+                // Known finding C18|nested-emplacer-failure: the part that does not fit is reached after a
+                // generated enum *Init emplacer has switched the variant; that part is then stale memory of the
+                // old variant, the emplacer protocol cannot roll back and the result may be invalid.
+                st.exclude("assign fails below an enum *Init after the variant was switched (known finding C18|nested-emplacer-failure)");
+                return None;
             }
+            Some((_, After::ValidChanged)) => {
+                // earlier parts (sized fields, tag, FlexVec items) are already written when the failure is
+                // detected, so the old content cannot survive (same known finding), but every part is a valid
+                // value on the pinned tree and the whole must be one
+                st.exclude("unchanged-clause of an assignment that fails after earlier parts were written (known finding C18|nested-emplacer-failure); validity is still checked");
+                Expect::AssignFails { unchanged: false }
+            }
+            Some((_, After::Unchanged)) => Expect::AssignFails { unchanged: true },
         };
         Some(Step {
             path: path.clone(),
@@ -692,6 +720,8 @@ pub fn run_history(sh: &dyn DynShape, tape: &[u8], cfg: &HistCfg, st: &mut Stats
                                 key: "invalid-bytes".into(),
                                 msg: format!("{}: after {:?} the bytes are no longer a well-formed encoding ({:?} at [{}, {})); buffer {} bytes, initial {}", name, outcome.trace, r.kind, r.lo, r.hi, n, v0.show()),
                             })
+                        } else if let Some(v) = (cfg.prop == "C05").then(|| model_free_size_check(sh, live, addr, n, a, &name, &outcome.trace)).flatten() {
+                            Stop::Violation(v)
                         } else {
                             Stop::Diverged("bytes invalid after a step owned by another property")
                         });
@@ -705,6 +735,8 @@ pub fn run_history(sh: &dyn DynShape, tape: &[u8], cfg: &HistCfg, st: &mut Stats
                             key: "content".into(),
                             msg: format!("{}: after {:?} the value is {} but the sequential model says {}; buffer {} bytes, initial {}", name, outcome.trace, dec.value.show(), abs.show(), n, v0.show()),
                         })
+                    } else if let Some(v) = (cfg.prop == "C05").then(|| model_free_size_check(sh, live, addr, n, a, &name, &outcome.trace)).flatten() {
+                        Stop::Violation(v)
                     } else {
                         Stop::Diverged("content differs after a step owned by another property")
                     });
@@ -996,6 +1028,12 @@ pub fn run_history(sh: &dyn DynShape, tape: &[u8], cfg: &HistCfg, st: &mut Stats
                         }
                     }
                     (e, r) => {
+                        if !owner_model && cfg.prop == "C05" {
+                            if let Some(v) = model_free_size_check(sh, live, addr, n, a, &name, &outcome.trace) {
+                                stop = Some(Stop::Violation(v));
+                                return;
+                            }
+                        }
                         stop = Some(mismatch(format!("library returned {:?} but the sequential model expects {:?}", r, e)));
                         return;
                     }
@@ -1061,4 +1099,31 @@ pub fn run_history(sh: &dyn DynShape, tape: &[u8], cfg: &HistCfg, st: &mut Stats
 
 pub fn outcome_sample(name: &str, o: &HistOutcome) -> serde_json::Value {
     json!({"shape": name, "initial": o.initial, "buffer": o.buffer, "history": o.trace})
+}
+
+/// C05's clause does not need the sequential model: whatever state the value is in (also after a step
+/// whose outcome differs from the model in a clause another property owns), size() must not exceed the
+/// buffer and the first size() bytes must re-map to what the accessors show, with the same size().
+fn model_free_size_check(sh: &dyn DynShape, live: &mut dyn Live, addr: usize, n: usize, a: usize, name: &str, trace: &[String]) -> Option<Violation> {
+    let out = live.read();
+    if out.size > n {
+        return Some(Violation {
+            key: "size".into(),
+            msg: format!("{}: after {:?} size() = {} exceeds the {} bytes the value is mapped from; value {}", name, trace, out.size, n, out.value.show()),
+        });
+    }
+    let bytes = peek(addr, n);
+    let mut b2 = Guarded::new_aligned(out.size, a, 0, false);
+    b2.fill(&bytes[..out.size]);
+    match sh.from_bytes(b2.as_ref()) {
+        Ok(o2) if o2.value == out.value && o2.size == out.size => None,
+        Ok(o2) => Some(Violation {
+            key: "remap".into(),
+            msg: format!("{}: after {:?} the first size() = {} bytes re-map to {} (size {}) instead of {}", name, trace, out.size, o2.value.show(), o2.size, out.value.show()),
+        }),
+        Err(e) => Some(Violation {
+            key: "remap".into(),
+            msg: format!("{}: after {:?} the first size() = {} bytes do not re-map: {}; value {}", name, trace, out.size, show_err(&e), out.value.show()),
+        }),
+    }
 }
